@@ -129,6 +129,37 @@ CLAIMS['C19'] = dict(
     technique='bounded exhaustive enumeration of the contract on the real functions (stand-in; no contract-based proof possible for float trigonometry)',
     note='bounded: nothing is proved beyond the enumerated areas; numpy/math float semantics as executed')
 
+CLAIMS['C15'] = dict(
+    category='exploration',
+    text="Exhaustive enumeration on the real code of the finite per-object layer (every non-empty subset of the 9 "
+         "state-representable classes / of the 11 classes for observations, every colour subset, every flat object of each "
+         "space, three representations): each channel within the declared bounds; array level sampled on 3x4 / 3x5 grids "
+         "(declared Space and advertised gym space contain convert()). Proved on the side: StateSpace / ObservationSpace "
+         "membership predicates, ObservationSpace view area and anchor, outer_space_to_gym_space (same bounds, dtype by "
+         "space type). Arbitrary grid shapes at the array level are not proved (numpy tiling is outside the verifier).",
+    design='5/C15',
+    technique='exhaustive finite enumeration of the per-object encoders on the real functions + contracts on the space predicates',
+    note='bounded at the array level (one sampled member per space on small shapes); closed world of the registered classes')
+CLAIMS['C16'] = dict(
+    category='exploration',
+    text="Exhaustive enumeration on the real code of the per-object encoders of every space (as in C15): equal encodings iff "
+         "equal objects, default = (type, status, colour) index triple, no-overlap channels pairwise disjoint, compact values "
+         "consecutive from zero; positional encoding, agent marker and state/observation-level faithfulness sampled with "
+         "single-change variants on 3x4 / 3x5 grids. Proved: GridObject equality is an equivalence on (type, status, colour) "
+         "and equal objects hash alike. Known finding (D8): observation representations do not encode the agent's orientation.",
+    design='5/C16',
+    technique='exhaustive finite enumeration of the per-object encoders on the real functions + eq/hash lemma',
+    note='bounded at the array level; one known finding listed in known_findings.txt')
+CLAIMS['C20'] = dict(
+    text="Proof: contracts on GymEnvironment.__init__/reset/step/set_*_representation, GymStateWrapper.reset/step and "
+         "outer_space_to_gym_space with the outer environment, representations and gym spaces as opaque stubs with ghost call "
+         "traces: index i executes the i-th action, the observation is read after reset/step (so, with C04, it is that of the "
+         "post state), reward/done passed through, the wrapper returns the post-step state and forwards the observation in "
+         "info, representation and advertised space change together, one Box per key with the declared bounds; "
+         "ActionSpace.int_to_action/action_to_int/contains. Containment in the spaces is C15; gym.Env / gym.Wrapper / "
+         "gym.spaces are modelled by small stubs (trusted).",
+    design='5/C20')
+
 NOT_APPLICABLE = {
     'C14': "existence of a winning action sequence is reachability over unbounded random layouts; no per-call contract decides it (DESIGN.md section 5, C14)",
     'C17': "depends on PyYAML (absent in the sandbox), the schema library and inspect reflection; outside contract reach (DESIGN.md section 5, C17)",
